@@ -575,7 +575,7 @@ def gen_case(rng, kind):
         return case
     if kind in ("analyze", "exact"):
         nact = int(rng.choice([1, 1, 1, 2]))
-        specs, where = gen_dom(rng, nact, True, maxtotal=120)
+        specs, where = gen_dom(rng, nact, False, maxtotal=120)      # passive sub-domains may lack volume factors (C10-F3)
         # binbounds are shared by all analysed spaces: custom bounds only with one analysed space
         bb = gen_binbounds(rng, specs[where[0]], allow_empty=(kind == "analyze")) if nact == 1 else None
         harm = [i for i, s in enumerate(specs) if s[0] in ("lm",) or (s[0] == "rg" and s[3])]
@@ -664,9 +664,55 @@ def gen_history(rng):
 KINDS = ["times", "adjoint", "powop", "dof_times", "dof_adjoint", "analyze", "analyze", "exact"]
 
 
+def forced_cases(rng):
+    """Input classes that random composition hits only sometimes: the acted-on sub-domain in the MIDDLE of a
+    product domain with more than one pixel before and after it; several harmonic sub-domains with
+    `spaces` given as the integer 0 / 1; a sub-domain without volume factors next to the analysed one."""
+    out = []
+    pre_pool = [["rg", [2], [0.5], False], ["gl", 2, None], ["unstructured", 3], ["rg", [3], [2.0], True], ["lm", 1, 1]]
+    post_pool = [["rg", [3], [0.75], False], ["dof", [1.0, 2.0]], ["unstructured", 2], ["rg", [2, 2], [1.0, 0.5], False]]
+    mids = [["rg", [4], [0.5], True], ["rg", [3, 2], [1.0, 1.0], True], ["lm", 2, 1], ["rg", [5], [1.5], True]]
+    for i, kind in enumerate(["adjoint", "dof_adjoint", "times", "dof_times", "powop", "analyze", "analyze", "adjoint", "dof_adjoint", "analyze"]):
+        dom = [pre_pool[int(rng.integers(0, len(pre_pool)))], mids[i % len(mids)], post_pool[int(rng.integers(0, len(post_pool)))]]
+        cplx = bool(i % 2)
+        sizes = [mk_space(x).size for x in dom]
+        n_h = sizes[1]
+        if kind == "analyze":
+            case = {"kind": "analyze", "dom": dom, "spaces": 1 if i % 3 else [1], "binbounds": gen_binbounds(rng, dom[1]), "keep": bool(cplx and i % 4 == 1)}
+            n_in = int(np.prod(sizes))
+        elif kind.startswith("dof"):
+            nb = int(rng.integers(1, n_h + 1))
+            dofdex = list(range(nb)) + [int(v) for v in rng.integers(0, nb, size=n_h - nb)]
+            dofdex = [dofdex[j] for j in rng.permutation(n_h)]
+            case = {"kind": kind, "dom": dom, "idx": 1, "dofdex": dofdex}
+            n_in = int(np.prod([sizes[0], nb, sizes[2]])) if kind == "dof_times" else int(np.prod(sizes))
+        else:
+            bb = gen_binbounds(rng, dom[1])
+            case = {"kind": kind, "dom": dom, "idx": 1, "binbounds": bb, "give_space": True}
+            nb = power_space_for(case, mk_space(dom[1])).size
+            n_in = int(np.prod([sizes[0], nb, sizes[2]])) if kind == "times" else int(np.prod(sizes))
+            if kind == "powop":
+                case["p"] = ints(rng, nb, 0, 12)
+                case["p_callable"] = False
+        case["re"] = ints(rng, n_in)
+        case["im"] = ints(rng, n_in) if cplx else None
+        out.append(case)
+    # two / three harmonic sub-domains, `spaces` an integer (0 is falsy!), a tuple in both orders, None
+    for i, spaces in enumerate([0, 1, [0], [1, 0], [0, 1], None, 0, 2]):
+        dom = [["rg", [4], [0.5], True], ["lm", 1, 1] if i % 2 else ["rg", [3], [1.0], True]]
+        if spaces == 2:
+            dom = dom + [["rg", [2, 2], [1.0, 1.0], True]]
+        n_in = size_of(dom)
+        cplx = bool(i % 2)
+        out.append({"kind": "analyze", "dom": dom, "spaces": spaces, "binbounds": None, "keep": bool(cplx and i == 3),
+                    "re": ints(rng, n_in), "im": ints(rng, n_in) if cplx else None})
+    return out
+
+
 def gen_cases(ctx, n, salt=10):
     rng = ctx.rng(salt)
-    out = [gen_case(rng, KINDS[i % len(KINDS)]) for i in range(n)]
+    out = forced_cases(ctx.rng(salt + 2000)) if salt == 10 else []
+    out += [gen_case(rng, KINDS[i % len(KINDS)]) for i in range(n)]
     rng2 = ctx.rng(salt + 1000)
     return out + [gen_history(rng2) for _ in range(max(6, n // 12))]
 
@@ -740,7 +786,7 @@ class C10(C.Check):
             errs += (o["error"] is not None) + sum(1 for so in o.get("steps", []) if so["error"] is not None)
         res.coverage.update({
             "evaluations": len(self.cases), "distinct_nontrivial": len(keys),
-            "rule": "generated product domains (1-3 sub-domains; analysed: harmonic RGSpace 1-D sizes 1-9 / 2-D up to 5x5 with dyadic distances, LMSpace lmax<=3; passive: RG, GL, PowerSpace, DOFSpace, LM, Unstructured), natural / midpoint-subset / linear / logarithmic / deliberately empty binnings, arbitrary dofdex for DOFDistributor, integer-valued real and complex fields; histories of 3-7 power_analyze calls on ONE domain with changing binnings (natural / custom / empty bins, failing call then retry with the same binning), fields, dtypes and phase flags, every call compared with the pure model of its own arguments; non-trivial = at least 2 bins and a bin with at least 2 modes; distinct by (kind, domain, space, binning, dofdex, phase flag, dtype)",
+            "rule": "generated product domains (1-3 sub-domains; analysed: harmonic RGSpace 1-D sizes 1-9 / 2-D up to 5x5 with dyadic distances, LMSpace lmax<=3; passive: RG, GL, PowerSpace, DOFSpace, LM, Unstructured), natural / midpoint-subset / linear / logarithmic / deliberately empty binnings, arbitrary dofdex for DOFDistributor, integer-valued real and complex fields; forced classes (acted-on sub-domain in the middle of a product domain with > 1 pixel before and after; several harmonic sub-domains with spaces = 0 / 1 / tuples / None; sub-domains without volume factors); histories of 3-7 power_analyze calls on ONE domain with changing binnings (natural / custom / empty bins, failing call then retry with the same binning), fields, dtypes and phase flags, every call compared with the pure model of its own arguments; non-trivial = at least 2 bins and a bin with at least 2 modes; distinct by (kind, domain, space, binning, dofdex, phase flag, dtype)",
             "samples": [{"case": {k: v for k, v in c.items() if k not in ("re", "im", "exact_p")}, "nbin": o.get("nbin"), "error": o["error"]}
                         for c, o in list(zip(self.cases, self.obs))[3:6]],
             "input_distribution": {"by_function": dist, "binning": binning, "n_subdomains": ndom, "cases_raising": errs},
